@@ -155,6 +155,20 @@ Theorem C17_ops_nonempty :
 Proof. exact ops_nonempty. Qed.
 Print Assumptions C17_ops_nonempty.
 
+(* REFUTED when contexts are shared: the ownership hypothesis of the theorems
+   above is necessary.  Two goroutines running the same well-formed splat
+   program on the SAME context (ctx 1) under some schedule: goroutine 1 does
+   not read back what it reads alone.  This is realised by the real code when
+   ONE dynblock-expanded body (bound to one EvalContext) whose for_each holds
+   a splat is shared by several goroutines calling Content: finding
+   "dynblock-foreach-shared-ctx" of the harness. *)
+Theorem C17_shared_ctx_refuted :
+  exists (sch : list (Z * op Z)) (ds : list (splat_desc Z)),
+    proj 1 sch = thread_prog ds /\ proj 2 sch = thread_prog ds
+    /\ (run_sched 0 ∅ sch 1).2 <> (run 0 ∅ (proj 1 sch)).2.
+Proof. exact shared_ctx_refuted. Qed.
+Print Assumptions C17_shared_ctx_refuted.
+
 (* Non-vacuity.  Two goroutines (1 and 2) splat over two elements each, on
    contexts 1 and 2, goroutine 2 also probing the result type on its child
    context 3; an interleaved schedule.  The hypotheses of
